@@ -28,6 +28,7 @@ type Config struct {
 	CsCap   int        `json:"cscap"`
 	DnlMs   int64      `json:"dnl"`
 	Regions []string   `json:"regions,omitempty"`
+	Threads int        `json:"threads,omitempty"` // full-stack executor only: number of forwarding threads (0 = thread-level executor)
 }
 
 type Op struct {
@@ -172,6 +173,9 @@ type entry struct {
 type deadRec struct{ from, until int64 }
 
 type cached struct {
+	// every distinct wire ever admitted under the name, with the latest instant at which a copy
+	// of it goes stale (only consulted with several forwarding threads: one store per thread)
+	versions map[string]int64
 	wire     []byte
 	at       int64
 	staleAt  int64
@@ -499,6 +503,18 @@ func (m *Model) cacheAnswerOK(op Op, dn string, wire []byte) *Violation {
 	if dn != op.N && !(op.CBP && isPrefix(op.N, dn)) {
 		return viol("C07", "cache answered Interest %s (CanBePrefix=%v) with non-matching Data %s", op.N, op.CBP, dn)
 	}
+	if m.cfg.Threads > 1 {
+		// one store per forwarding thread: which copies a thread holds depends on the dispatch
+		// of each Data; any version admitted under the name may be the most recent one there
+		st, ok := c.versions[string(wire)]
+		if !ok {
+			return viol("C07", "cache answered Interest %s with bytes never received under %s", op.N, dn)
+		}
+		if op.MBF && !(m.now < st) {
+			return viol("C07", "cache answered MustBeFresh Interest %s with Data %s stale since +%dms (now +%dms)", op.N, dn, st/ms, m.now/ms)
+		}
+		return nil
+	}
 	if op.MBF && !(m.now < c.staleAt) {
 		return viol("C07", "cache answered MustBeFresh Interest %s with Data %s stale since +%dms (now +%dms)", op.N, dn, c.staleAt/ms, m.now/ms)
 	}
@@ -685,7 +701,7 @@ func (m *Model) Interest(idx int, op Op, wire []byte, em []Emission) *Violation 
 	}
 	// required cache hit (C07): serving on, first Interest of this face for the entry, exact name
 	// definitely cached and fresh enough
-	if m.cfg.CsServe && !hadRecord && !op.CBP {
+	if m.cfg.CsServe && !hadRecord && !op.CBP && m.cfg.Threads <= 1 { // (each thread has its own store: with several threads the Data may be cached elsewhere)
 		if c, ok := m.cache[op.N]; ok && m.distinct <= m.minCap && (!op.MBF || m.now < c.staleAt) {
 			return viol("C07", "Interest #%d %s (MustBeFresh=%v) was not answered from the cache although Data %s is cached, unevicted and fresh enough", idx, op.N, op.MBF, op.N)
 		}
@@ -922,7 +938,7 @@ func (m *Model) Data(idx int, op Op, wire []byte, tok []byte, em []Emission) *Vi
 		if !seen {
 			m.distinct++
 			m.newNameSinceCap = true
-			c = &cached{name: op.N}
+			c = &cached{name: op.N, versions: map[string]int64{}}
 			m.cache[op.N] = c
 		}
 		c.wire = append([]byte{}, wire...)
@@ -932,6 +948,9 @@ func (m *Model) Data(idx int, op Op, wire []byte, tok []byte, em []Emission) *Vi
 			c.staleAt = m.now + (op.Fresh-1)*ms
 		}
 		c.everSeen++
+		if c.staleAt > c.versions[string(wire)] || c.versions[string(wire)] == 0 {
+			c.versions[string(wire)] = c.staleAt
+		}
 	}
 	// matching entries
 	var matched []*entry
